@@ -1,12 +1,13 @@
 from vv.core import harness
-from vv.registry import PROPS, COMMON_ASSUME, rc
+from vv.registry import PROPS, COMMON_ASSUME, rc, py
 
 harness("h_c20", ["harness/h_c20.cc"], libs=("csg",))
 
 PROPS["C20"] = dict(
-    repo_targets=("votca_tools", "votca_csg"),
+    repo_targets=("votca_tools", "votca_csg", "csg_boltzmann"),
     parts=[rc("h_c20", quick=dict(cases=20000, procs=1, args=["--enum", "1"], budget_s=300),
-              thorough=dict(cases=400000, procs=4, args=["--enum", "1"], budget_s=900))],
+              thorough=dict(cases=400000, procs=4, args=["--enum", "1"], budget_s=900)),
+           py("vv.exe_c20", quick=dict(cases=64, procs=8, budget_s=300), thorough=dict(cases=2000, procs=16, budget_s=1200))],
     rule=("units: EXHAUSTIVE over every ordered triple (a,b,c) of enumerators in each of the nine UnitConverter dimensions "
           "(1128 triples): round trip and transitivity within 4 ulp, value of convert(a->b) against SI-exact/CODATA-2018 numbers "
           "embedded in the checker (rel 5e-5), velocity/force/molar-force = quotient of the base conversions (16 ulp); plus a generated "
@@ -16,7 +17,11 @@ PROPS["C20"] = dict(
           "factors applied by LAMMPSDumpReader to positions/forces obtained by reading a one-atom dump, Elements::getCovRad unit switch, "
           "csg/units.h defaults) agree to rel 5e-5; non-trivial = all (each is encoded >= 2 times). "
           "elements: every Z=1..86: getEleNum/getEleName/getNucCrg round trips, mass > 0 and within 0.1 % of the embedded IUPAC table, "
-          "getEleShort(getEleFull(x)) = x; non-trivial = element present in the library (La..Lu are absent)."),
+          "getEleShort(getEleFull(x)) = x; non-trivial = element present in the library (La..Lu are absent)."
+          " boltzmann_kBT (executable csg_boltzmann, the consumer of conv::kB in csg): generated dimer trajectories, 2-3 temperatures set one "
+          "after the other in ONE process; for populated bins U_i-U_j = -kB T ln(p_i/p_j) with the CODATA kB; non-trivial = >=2 temperatures and "
+          "a non-flat histogram. crosstable also reads two-frame LAMMPS dumps with a changing box in plain, unwrapped and scaled columns; elements "
+          "are queried in all accessor orders on one object."),
     assumptions=COMMON_ASSUME + [
         "kcal means the thermochemical kilocalorie (4.184 kJ), the calorie of kcal/mol force fields and LAMMPS 'real' units",
         "electron_volts_per_mole etc. are read literally (eV/mol), as the table values imply",
